@@ -569,6 +569,8 @@ class Executor(object):
                 return ('family', ast.literal_eval(m.args[0]))
             if f == 'anything':
                 return ('any', None)
+            if f == 'anylist':
+                return ('anylist', None)
             if f == 'fresh_only':
                 return ('none', None)
         v = self.cvalue(m, entry, entry, None)
@@ -581,6 +583,10 @@ class Executor(object):
             if kind == 'any':
                 return TRUE
             if kind == 'none':
+                continue
+            if kind == 'anylist':
+                if name.startswith('L:'):
+                    return TRUE
                 continue
             if kind == 'family':
                 if self._family_array(name, v):
@@ -1128,6 +1134,9 @@ class Executor(object):
                     continue
                 if f == 'anything':
                     pats.add('*')
+                    continue
+                if f == 'anylist':
+                    pats.add('L')
                     continue
                 if f == 'fresh_only':
                     continue
